@@ -187,10 +187,10 @@ Definition ex_session : session :=
   mkSession 60 1790000000123456789 63000000000 40000000 65000000000 ex_skew true true true true.
 Example C19_example_session :
   session_ok ex_session = true
-  /\ system_time_to_ntp (se_t0 ex_session + se_xf ex_session) = Some 17175526384183463930%N
+  /\ system_time_to_ntp (se_t0 ex_session + se_xf ex_session) = Some 17175526384183463931%N
   /\ parse_u32 [51; 57; 57; 56; 57; 56; 56; 56; 54; 48]%N = Some (se_expires_ntp ex_session)
   /\ outputs (mkCfg true true)
-       (session_events ex_session (Some 17175526384183463930%N) [51; 57; 57; 56; 57; 56; 56; 56; 54; 48]%N)
+       (session_events ex_session (Some 17175526384183463931%N) [51; 57; 57; 56; 57; 56; 56; 56; 54; 48]%N)
      = Some [[]; []; []; []; []; []; []; []].
 Proof. vm_compute. repeat split; reflexivity. Qed.
 
